@@ -44,7 +44,11 @@ func sysByName(name string) semver.System {
 }
 
 func parseSet(sys semver.System, s string) (semver.Set, *semver.Constraint, bool) {
-	c, err := sys.ParseConstraint(s)
+	parse := sys.ParseConstraint
+	if strings.HasPrefix(s, "{") {
+		parse = sys.ParseSetConstraint // an operand written in the set syntax
+	}
+	c, err := parse(s)
 	if err != nil {
 		return semver.Set{}, nil, false
 	}
@@ -358,6 +362,144 @@ func pairProp(sys semver.System) func(*rapid.T) {
 	}
 }
 
+// setTextOperand writes a set in the system-independent set syntax: one to
+// three spans listed in any order, each end open or closed, bounds from a small
+// pool. The spans of one operand are disjoint and leave at least one release
+// between them (possibly exactly one: "[1.0.0:1.2.3],(1.2.4:2.0.0]"), so the
+// text denotes what canonicalisation would keep as it is; spans of different
+// operands touch, overlap and adjoin freely.
+func setTextOperand(sys semver.System) *rapid.Generator[string] {
+	pool := [][3]int{{0, 0, 0}, {0, 0, 1}, {1, 0, 0}, {1, 2, 3}, {1, 2, 4}, {1, 2, 5}, {1, 3, 0}, {2, 0, 0}, {2, 0, 1}, {3, 0, 0}}
+	const inf = 1 << 30
+	less := func(x, y [3]int) bool {
+		for i := 0; i < 3; i++ {
+			if x[i] != y[i] {
+				return x[i] < y[i]
+			}
+		}
+		return false
+	}
+	return rapid.Custom(func(t *rapid.T) string {
+		pfx := ""
+		if sys == semver.Go {
+			pfx = "v"
+		}
+		show := func(v [3]int) string {
+			if v[1] == inf {
+				return fmt.Sprintf("%s%d.∞.∞", pfx, v[0])
+			}
+			return fmt.Sprintf("%s%d.%d.%d", pfx, v[0], v[1], v[2])
+		}
+		n := rapid.IntRange(1, 3).Draw(t, "nspans")
+		var spans []string
+		// free: the first release a further span may contain; freeOpen: only as an open lower bound
+		i := 0
+		var free [3]int
+		freeOpen := false
+		for k := 0; k < n && i < len(pool); k++ {
+			// lower bound
+			i += rapid.IntRange(0, 2).Draw(t, "skip")
+			for i < len(pool) && less(pool[i], free) {
+				i++
+			}
+			if i >= len(pool) {
+				break
+			}
+			lo := pool[i]
+			loOpen := rapid.Bool().Draw(t, "loopen")
+			if lo == free && freeOpen {
+				loOpen = true
+			}
+			// upper bound
+			j := i + rapid.IntRange(0, 3).Draw(t, "len")
+			if loOpen && j == i {
+				j++ // an open lower bound needs a span, not a point
+			}
+			if j >= len(pool) {
+				j = len(pool) - 1
+			}
+			if loOpen && j == i {
+				break
+			}
+			hi := pool[j]
+			hiOpen := rapid.Bool().Draw(t, "hiopen")
+			if j > i && rapid.IntRange(0, 5).Draw(t, "inf") == 0 {
+				hi, hiOpen = [3]int{hi[0], inf, inf}, false
+			}
+			if hi == lo {
+				spans = append(spans, show(lo))
+				loOpen, hiOpen = false, false
+			} else {
+				l, r := "[", "]"
+				if loOpen {
+					l = "("
+				}
+				if hiOpen {
+					r = ")"
+				}
+				spans = append(spans, l+show(lo)+":"+show(hi)+r)
+			}
+			// what the next span may start with
+			switch {
+			case hi[1] == inf:
+				free, freeOpen = [3]int{hi[0] + 1, 0, 0}, true
+			case hiOpen:
+				free, freeOpen = hi, true
+			default:
+				free, freeOpen = [3]int{hi[0], hi[1], hi[2] + 1}, true
+			}
+			for i < len(pool) && !less(hi, pool[i]) && hi[1] != inf {
+				i++
+			}
+		}
+		perm := rapid.Permutation(spans).Draw(t, "order")
+		return "{" + strings.Join(perm, ",") + "}"
+	})
+}
+
+// setTextProp: the same laws with operands written in the set syntax, whose
+// spans need not be listed in order and may have an open lower end at a
+// release (a form the constraint syntaxes never produce).
+func setTextProp(sys semver.System) func(*rapid.T) {
+	sg := setTextOperand(sys)
+	cg := gen.Constraint(sys)
+	return func(t *rapid.T) {
+		A := sg.Draw(t, "A")
+		B := sg.Draw(t, "B")
+		if rapid.IntRange(0, 3).Draw(t, "mixed") == 0 {
+			B = cg.Draw(t, "Bc")
+		}
+		if rapid.Bool().Draw(t, "swap") {
+			A, B = B, A
+		}
+		pool := gen.BoundaryVersions(styleOf(sys), A, B)
+		c := setCase{System: sys.String(), A: A, B: B}
+		rec.SetCase(c)
+		sampled := false
+		fails, in := evalPair(sys, A, B, pool, func(v string, boundary, both bool) {
+			rec.Eval(1)
+			if boundary && both {
+				rec.NonTrivial(sys.String() + "|" + A + "|" + B + "|" + v)
+				if !sampled && rec.WantSample() {
+					sampled = true
+					rec.Sample(setCase{sys.String(), A, B, v})
+				}
+			}
+		})
+		if !in {
+			rec.ExcludedDomain("constraint-rejected-or-union-error")
+			return
+		}
+		for _, f := range fails {
+			if cl := knownClass(sys, f, A, B); cl != "" {
+				rec.ExcludedKnown(cl)
+				continue
+			}
+			rec.Fail(t, map[string]string{"system": c.System, "a": A, "b": B, "v": f.v, "law": f.check}, f.observed, f.expected)
+		}
+	}
+}
+
 // permProp: permuting the || alternatives of a constraint leaves membership unchanged.
 func permProp(sys semver.System) func(*rapid.T) {
 	g := gen.Constraint(sys)
@@ -421,6 +563,12 @@ func TestCorpus(t *testing.T) {
 func TestSetAlgebra(t *testing.T) {
 	for _, sys := range systems {
 		rec.Check(t, "algebra/"+sys.String(), ev.N(12000, 1500000), pairProp(sys))
+	}
+}
+
+func TestSetTextOperands(t *testing.T) {
+	for _, sys := range systems {
+		rec.Check(t, "algebra-set-text/"+sys.String(), ev.N(6000, 600000), setTextProp(sys))
 	}
 }
 
